@@ -1176,6 +1176,87 @@ func (l *log) GC(unusedFor time.Duration) error {""")]),
 	}
 	return err
 }""")]),
+ ("OpenWriter: header slice through a local", [("pkg/message/format.go", """		v, err = headerParse(h[:], offset)
+		if err != nil {
+			return nil, fmt.Errorf("write log parse header: %w", err)
+		}""", """		hdr := h[:]
+		v, err = headerParse(hdr, offset)
+		if err != nil {
+			return nil, fmt.Errorf("write log parse header: %w", err)
+		}""")]),
+ ("Log.Delete: empty set tested with < 1", [("log.go", """	if len(offsets) == 0 {
+		return nil, 0, nil
+	}
+
+	l.deleteMu.Lock()
+	defer l.deleteMu.Unlock()
+
+	return l.delete(offsets)""", """	if len(offsets) < 1 {
+		return nil, 0, nil
+	}
+
+	l.deleteMu.Lock()
+	defer l.deleteMu.Unlock()
+
+	deleted, size, err := l.delete(offsets)
+	return deleted, size, err""")]),
+ ("Recover: stored index compared by hand, lengths first", [("pkg/segment/segment.go", """	case !slices.Equal(items, restoreIndex):
+		indexVersion, _ = index.GetVersion(s.Index, s.Offset, params)
+		corruptedIndex = true
+	}""", """	default:
+		same := len(items) == len(restoreIndex)
+		for i := 0; same && i < len(items); i++ {
+			same = items[i] == restoreIndex[i]
+		}
+		if !same {
+			indexVersion, _ = index.GetVersion(s.Index, s.Offset, params)
+			corruptedIndex = true
+		}
+	}""")]),
+ ("copyFile: up-to-date test in an if with early exits", [("pkg/segment/utils.go", """		switch dstStat, err := os.Stat(dst); {
+		case err != nil:
+			return fmt.Errorf("copy dst stat: %w", err)
+		case stat.Size() == dstStat.Size() && stat.ModTime().Equal(dstStat.ModTime()):
+			// TODO do we need a safer version of this?
+			return nil
+		}""", """		dstStat, serr := os.Stat(dst)
+		if serr != nil {
+			return fmt.Errorf("copy dst stat: %w", serr)
+		}
+		if stat.Size() == dstStat.Size() {
+			if stat.ModTime().Equal(dstStat.ModTime()) {
+				return nil
+			}
+		}""")]),
+ ("Open (read-only): readers built by index", [("log.go", """		for i, seg := range segments {
+			rdr := openReader(seg, params, opts.Version.NewSegmentsVersion, i == len(segments)-1)
+			l.readers = append(l.readers, rdr)
+		}""", """		last := len(segments) - 1
+		for i := 0; i <= last; i++ {
+			rdr := openReader(segments[i], params, opts.Version.NewSegmentsVersion, i == last)
+			l.readers = append(l.readers, rdr)
+		}""")]),
+ ("write-only statistics counters in the log and in the reader", [("log.go", """	deleteMu sync.Mutex
+}""", """	deleteMu sync.Mutex
+
+	consumes atomic.Int64
+	gets     atomic.Int64
+}"""), ("log.go", """func (l *log) Consume(offset int64, maxCount int64) (int64, []message.Message, error) {
+	l.readersMu.RLock()""", """func (l *log) Consume(offset int64, maxCount int64) (int64, []message.Message, error) {
+	l.consumes.Add(1)
+	l.readersMu.RLock()"""), ("log.go", """func (l *log) Get(offset int64) (message.Message, error) {
+	l.readersMu.RLock()""", """func (l *log) Get(offset int64) (message.Message, error) {
+	l.gets.Add(1)
+	l.readersMu.RLock()"""), ("log.go", """import (
+""", """import (
+	"sync/atomic"
+"""), ("log_reader.go", """	indexLastAccess atomic.Int64
+}""", """	indexLastAccess atomic.Int64
+	lookups         atomic.Int64
+}"""), ("log_reader.go", """func (r *reader) getIndexNow() (indexer, error) {
+""", """func (r *reader) getIndexNow() (indexer, error) {
+	r.lookups.Add(1)
+""")]),
 ]
 
 def main():
